@@ -282,6 +282,22 @@ theorem C18_iequiv_refl_symm (g h : DG) :
   refine ⟨by simp [sameSetBy_refl], ?_⟩
   rw [sameSetBy_comm (skeleton g), sameSetBy_comm (vStructures g)]
 
+theorem sameSetBy_trans {α : Type} [BEq α] [LawfulBEq α] (a b c : List α)
+    (h1 : sameSetBy a b = true) (h2 : sameSetBy b c = true) : sameSetBy a c = true := by
+  unfold sameSetBy at *
+  simp only [Bool.and_eq_true, List.all_eq_true, List.contains_iff_mem] at *
+  exact ⟨fun x hx => h2.1 x (h1.1 x hx), fun x hx => h1.2 x (h2.2 x hx)⟩
+
+/-- I-equivalence is transitive: with `C18_iequiv_refl_symm` it is an equivalence relation, so
+    `is_iequivalent` must partition the DAGs over a node set into classes (the exhaustive stream
+    compares the implementation's verdict, both ways round, with the model on every ordered pair of
+    DAGs of up to 3 nodes and on random same-skeleton pairs of 4) -/
+theorem C18_iequiv_trans (g h k : DG) (h1 : iEquivalent g h = true) (h2 : iEquivalent h k = true) :
+    iEquivalent g k = true := by
+  unfold iEquivalent at *
+  simp only [Bool.and_eq_true] at *
+  exact ⟨sameSetBy_trans _ _ _ h1.1 h2.1, sameSetBy_trans _ _ _ h1.2 h2.2⟩
+
 example : IA.same ⟨[1], [2, 3], []⟩ ⟨[2, 3], [1], []⟩ = true := by decide
 
 
